@@ -36,12 +36,7 @@ import (
 const ID = "C12"
 
 // signatures of known findings (known_findings.json)
-const (
-	sigCarries     = "emulated-mul-carries-unchecked"
-	sigSelectAlias = "emulated-select-append-aliasing"
-	sigToBitsConst = "emulated-tobits-constant-overflow"
-	sigIsZeroConst = "emulated-iszero-constant-operand"
-)
+const sigCarries = "emulated-mul-carries-unchecked"
 
 func TestMain(m *testing.M) {
 	logger.Disable()
@@ -72,98 +67,9 @@ type result struct {
 	ps      *paramSet
 }
 
-// knownSignature maps a failure to the signature of a known finding, if the message and the shape of the
-// case both match (narrow on purpose: anything else stays a violation).
-func knownSignature(c *Case, res *result, msg string) string {
-	if res.st == nil {
-		return ""
-	}
-	meta := func(x int) (elemMeta, bool) {
-		if res.pr == nil {
-			return elemMeta{}, false
-		}
-		res.pr.mu.Lock()
-		defer res.pr.mu.Unlock()
-		mt, ok := res.pr.meta[x]
-		return mt, ok
-	}
-	unsat := strings.Contains(msg, "assertIsEqual") || strings.Contains(msg, "is not satisfied")
-	for i, o := range c.Ops {
-		if res.st.skip[i] {
-			continue
-		}
-		a := res.st.opnds[i]
-		switch o.Op {
-		case "ToBits", "BitsRoundTrip", "AssertIsLessOrEqual":
-			// ToBits of an element whose limbs are all constants returns NbLimbs*BitsPerLimb bits of the value and ignores
-			// the overflow: Sub(x, x) is folded by the builder to the (large) padding constant, whose bits are truncated
-			for _, x := range a {
-				for j, e := range res.st.opElem {
-					if e == x && c.Ops[j].Op == "Sub" && len(res.st.opnds[j]) >= 2 && res.st.opnds[j][0] == res.st.opnds[j][1] &&
-						c.Mode != "engine" {
-						return sigToBitsConst
-					}
-				}
-			}
-		case "IsZero", "AssertIsDifferent":
-			// IsZero indexes limb 0 of the reduced element, which is on zero limbs when the operand folds to a constant
-			if strings.Contains(msg, "index out of range [0] with length 0") && c.Mode != "engine" {
-				return sigIsZeroConst
-			}
-		case "Exp":
-			// Exp itself runs Select(bit, Mul(base, res), res): with a base on more than NbLimbs limbs this is the aliasing shape
-			if mt, ok := meta(a[0]); ok && mt.NL > int(res.ps.N) && unsat {
-				return sigSelectAlias
-			}
-		case "Select", "Mux", "Lookup2":
-			if aliasShape(c, res, i, meta) && unsat {
-				return sigSelectAlias
-			}
-		}
-	}
-	return ""
-}
-
-// aliasShape: Select / Lookup2 / Mux pad a shorter operand with append(limbs, zeros...). When that operand is the
-// remainder returned by a multiplication hint, its Limbs slice is a sub-slice of the hint output (quo|rem|carries)
-// with spare capacity, so the append overwrites the carry limbs of the deferred multiplication check, which then
-// cannot be satisfied by the honest prover.
-func aliasShape(c *Case, res *result, i int, meta func(int) (elemMeta, bool)) bool {
-	a := res.st.opnds[i]
-	mx := 0
-	for _, x := range a {
-		if mt, ok := meta(x); ok && mt.NL > mx {
-			mx = mt.NL
-		}
-	}
-	for _, x := range a {
-		mt, ok := meta(x)
-		if !ok || mt.NL >= mx {
-			continue
-		}
-		for j, e := range res.st.opElem {
-			if e == x {
-				switch c.Ops[j].Op {
-				case "Mul", "MulMod", "Reduce", "ReduceStrict", "Eval", "Exp", "Sqrt", "Div", "Inverse":
-					return true
-				}
-			}
-		}
-	}
-	return false
-}
-
-// violationOrKnown turns a failure into a violation unless it matches an open known finding.
+// violationOrKnown: every failure outside the adversarial unchecked-carries path is a violation (the robustness
+// defects found while building this check are fixed in the tree; their directed cases are asserted as is).
 func violationOrKnown(c *Case, res *result, rec *ev.Recorder, msg string) ev.Outcome {
-	if sig := knownSignature(c, res, msg); sig != "" {
-		if kf, ok := ev.OpenFinding(ID, sig); ok {
-			if rec != nil {
-				rec.Note("known finding %s reproduced: %s", kf.ID, trunc(msg, 600))
-			}
-			return ev.Outcome{Known: kf.ID, Discard: true, DiscardWhy: "known finding " + kf.ID}
-		}
-		msg += " [signature " + sig + "]"
-	}
 	return ev.Outcome{Violation: msg}
 }
 
